@@ -322,7 +322,12 @@ Definition model_from_headers (headers : list str) : result ierr ty :=
 Definition no_char (c : char) (s : str) : bool := negb (mem_char c s).
 Definition no_seps (s : str) : bool :=
   no_char inf_hdr_sep s && no_char inf_ann_sep s && no_char inf_dflt_sep s.
-Definition stripped (s : str) : bool := str_eqb (strip s) s.
+(* strip s = s, in the elementary form: first and last character are not whitespace *)
+Definition stripped (s : str) : bool :=
+  match s with
+  | [] => true
+  | c :: _ => negb (is_ws c) && negb (is_ws (last s 0))
+  end.
 Definition all_ws (s : str) : bool := forallb is_ws s.
 
 Definition name_ok (n : str) : bool := no_seps n && stripped n.
@@ -336,7 +341,7 @@ Definition leaf_ok (l : leaf) : bool :=
   match l with
   | LStr e (Some d) =>
     stripped d && no_char inf_hdr_sep d && (e || no_char inf_ann_sep d)
-  | LFloat (Some d) => is_float_lit d && stripped d && no_char inf_hdr_sep d
+  | LFloat (Some d) => is_float_lit d && stripped d && no_seps d
   | _ => true
   end.
 
